@@ -27,6 +27,19 @@ def run(chk):
         if v["sig"].startswith("harness:"):
             raise vlib.MachineryError("C13 scenario did not reach its wait state: " + v["desc"])
         chk.violation(v["sig"], v["desc"], dict(kind="c13", detail=v))
+    # the admin client: an ended context ends a table operation at once - while a poll is unanswered, between two polls
+    from props import admin
+    ad = admin.run_admin(chk)
+    for st in ad["stuck"]:
+        at = st["at"] or {}
+        if st.get("after_cancel"):
+            chk.violation("cancel-slow-or-ignored:admin", "admin scenario %s: after its context ended the operation went on with %s "
+                          "(Admin.tla: the context error at once, no further poll, no further sleep); events %s"
+                          % (st["scenario"], json.dumps(at), json.dumps(st["events"])[:900]), dict(kind="admin-trace", detail=st))
+    for v in ad.get("violations") or []:
+        if "never-returns" in v["sig"]:
+            chk.violation("cancel-ignored:admin", v["desc"], dict(kind="admin", detail=v))
+    chk.cov["admin_scenarios_validated"] = ad["scenarios"]
     chk.cov["traces_validated_against_impl"] = res["scenarios"]
     chk.cov["evaluations"] = res["scenarios"]
     chk.cov["distinct_nontrivial"] = res["distinct"]
